@@ -165,3 +165,47 @@ func EnumShared(nshard, nrows int, materialize bool, a, b int) *Spec {
 	}
 	return spec
 }
+
+// EnumCogroupGaps builds Cogroup(A, B) where A holds nkeys distinct keys and B
+// only some of them (pattern 0: every third key, 1: the lower half, 2: the
+// upper half, 3: only the last key), so that groups are absent from one input
+// in the first, a middle and the last output batch of a shard; followed by a
+// consumer (0 none, 1 Map, 2 Filter) that is pipelined with the Cogroup and
+// therefore reads it through one reused frame.
+func EnumCogroupGaps(nkeys, nshard, pattern, consumer int) *Spec {
+	mk := func(keep func(k int) bool) Node {
+		n := Node{Op: "readerfunc", Cols: []Col{TInt, TInt}, NShard: nshard, ShardRows: make([][][]int, nshard), Script: []vgen.Chunk{{N: 100}}}
+		i := 0
+		for k := 0; k < nkeys; k++ {
+			if keep(k) {
+				n.ShardRows[i%nshard] = append(n.ShardRows[i%nshard], []int{k, k % 23})
+				i++
+			}
+		}
+		return n
+	}
+	spec := &Spec{}
+	spec.Nodes = append(spec.Nodes, mk(func(int) bool { return true }))
+	spec.Nodes = append(spec.Nodes, mk(func(k int) bool {
+		switch pattern {
+		case 0:
+			return k%3 == 0
+		case 1:
+			return k < nkeys/2
+		case 2:
+			return k >= nkeys/2
+		}
+		return k == nkeys-1
+	}))
+	spec.Nodes = append(spec.Nodes, Node{Op: "cogroup", In: []int{0, 1}})
+	switch consumer {
+	case 1:
+		spec.Nodes = append(spec.Nodes, Node{Op: "map", In: []int{2}, Fn: &Fn{Exprs: []Expr{{K: "col", I: 0}, {K: "len", I: 1}, {K: "len", I: 2}}}})
+	case 2:
+		spec.Nodes = append(spec.Nodes, Node{Op: "filter", In: []int{2}, Fn: &Fn{M: 10, T: 8}})
+	}
+	if err := Annotate(spec); err != nil {
+		panic(err)
+	}
+	return spec
+}
